@@ -36,7 +36,7 @@ class Lock:
 def regenerate():
     """Everything that is derived from /repo's working tree on every run."""
     out = []
-    for tool in ("gen_consts.py", "srcfacts.py", "c2gallina.py"):
+    for tool in ("gen_consts.py", "srcfacts.py", "c2gallina.py", "c2imp.py"):
         p = os.path.join(V, "tools", tool)
         if os.path.exists(p):
             r = sh([sys.executable, p], timeout=300)
